@@ -680,13 +680,18 @@ func c12backlog(c *ctx) {
 
 type c12ParkHook struct {
 	armed   int32
+	substr  string // park at the log line containing this (default: the inactivity check's "terminal message set to timeout")
 	parked  chan struct{}
 	release chan struct{}
 }
 
 func (h *c12ParkHook) Levels() []log.Level { return []log.Level{log.DebugLevel} }
 func (h *c12ParkHook) Fire(e *log.Entry) error {
-	if e.Message == "terminal message set to timeout" && atomic.CompareAndSwapInt32(&h.armed, 1, 0) {
+	hit := e.Message == "terminal message set to timeout"
+	if h.substr != "" {
+		hit = strings.Contains(e.Message, h.substr)
+	}
+	if hit && atomic.CompareAndSwapInt32(&h.armed, 1, 0) {
 		close(h.parked)
 		<-h.release
 	}
@@ -746,6 +751,72 @@ func c12timerRace(c *ctx, k int) {
 		ps.finish()
 	})
 	c.o.case_(fmt.Sprint("timer race ", k), true)
+}
+
+// "closes itself on its inactivity timer only while it has no open stream ... for all timer phases": the closer of the
+// LAST stream has counted the session down to zero and stands right before arming the inactivity check (parked in the
+// log line between the two) when another stream is opened; the new stream then stays open and idle for several
+// inactivity periods. Whenever and however the check is armed, it must find the open stream.
+func c12timerArmRace(c *ctx, k int) {
+	h := &c12ParkHook{substr: "has no active stream left"}
+	oldLevel := log.GetLevel()
+	oldHooks := log.StandardLogger().ReplaceHooks(log.LevelHooks{})
+	log.SetLevel(log.DebugLevel)
+	log.AddHook(h)
+	defer func() {
+		log.SetLevel(oldLevel)
+		log.StandardLogger().ReplaceHooks(oldHooks)
+	}()
+	tag := fmt.Sprint("last stream closed while another is opened, then idle ", k)
+	synctest.Run(func() {
+		h.parked, h.release = make(chan struct{}), make(chan struct{})
+		var key [32]byte
+		copy(key[:], c.r.bytes(32))
+		rg := newSeshPair(byte(k%4), key, 1+k%2, false, false, 10*time.Second)
+		A := rg.S[0].sesh
+		st, err := A.OpenStream()
+		if err != nil {
+			panic(err)
+		}
+		st.Write([]byte("first"))
+		synctest.Wait()
+		atomic.StoreInt32(&h.armed, 1)
+		closed := make(chan struct{})
+		go func() { st.Close(); close(closed) }()
+		synctest.Wait()
+		select {
+		case <-h.parked:
+		default:
+			c.o.N("C12 timer arm race: closing the last stream did not pass the log line before arming the check — case skipped")
+			atomic.StoreInt32(&h.armed, 0)
+			<-closed
+			A.Close()
+			rg.S[1].sesh.Close()
+			return
+		}
+		st2, err := A.OpenStream()
+		if err == nil {
+			st2.Write([]byte("second stream, opened while the closer of the first stands before arming the inactivity check"))
+		}
+		close(h.release)
+		<-closed
+		synctest.Wait()
+		time.Sleep(35 * time.Second) // three and a half inactivity periods, the second stream open and idle
+		synctest.Wait()
+		if err == nil && A.IsClosed() && mux.VerifOpenStreams(A) > 0 || (err == nil && A.IsClosed() && A.TerminalMsg() == "timeout") {
+			c.o.V("C12 inactivity-close-with-open-stream armed-while-a-stream-was-being-opened", map[string]any{"tag": tag, "terminal": A.TerminalMsg(),
+				"what": "the session closed itself on its inactivity timer although a stream had been open the whole time since before the timer was armed",
+				"replay": "A opens stream 1, writes, closes it; the closer parked at the log line `no active stream left` (count already 0, check not yet armed); A opens stream 2 and writes; release; 35 s idle with inactivity timeout 10 s"})
+		}
+		if st2 != nil {
+			st2.Close()
+		}
+		A.Close()
+		rg.S[1].sesh.Close()
+		rg.propagate()
+		synctest.Wait()
+	})
+	c.o.case_(tag, true)
 }
 
 func c12(c *ctx) {
@@ -830,6 +901,9 @@ func c12(c *ctx) {
 	c12backlog(c)
 	for k := 0; k < 2; k++ {
 		c12timerRace(c, k)
+	}
+	for k := 0; k < 2; k++ {
+		c12timerArmRace(c, k)
 	}
 	for k := 0; k < 3; k++ {
 		c12lateConnection(c, k)
